@@ -62,8 +62,8 @@ CFG = {
     text="Theorems: for arbitrary valid page-range lists the output is ascending, disjoint without shared end points, start<=end; for real trees every range additionally lies within the peer's span, starts at a peer key and ends at a peer or local key.",
     assumptions=[A_TOTAL, A_LVL, A_MODEL]),
  "C13": dict(streams=S("lsmall","lrand", profiles=["debug","release"]) + [dict(name="ldepth", features=["mst_all"])], level="proof", stack_ladder=True,
-    theorems=[P+"C13_partial", P+"C13_constructor", P+"C13_depth_refines", P+"C13_depth_le_input", P+"C13_depth_chain", P+"C13_depth_real_tree"],
-    text="PARTIAL. Theorem C13_partial (all finite lists with start<=end, any length/nesting/order/digests): diff terminates, trips no assertion, returns sorted disjoint well-formed ranges with bounds from the input. Not provable in a functional model: stack boundedness; its model-level shadow IS proved: the depth-instrumented walk refines the walk, depth <= |peer| always, a nested chain of n ranges reaches depth n, and against the serialisation of a REAL tree the depth is <= root level + 1 (so library-produced trees are always safe and no fixed stack suffices for untrusted input: this clause is false of the algorithm as written = known finding F2). The model depth is tied to the REAL recursion depth observed through the crate's own tracing spans (ldepth stream, feature tracing). The stack part itself is decided by replaying nested chains on a 2 MiB thread in debug and release: depths <= 4096 must pass; the overflow at depth ~12000 is known finding F2.",
+    theorems=[P+"C13_partial", P+"C13_constructor", P+"C13_depth_refines", P+"C13_depth_le_input", P+"C13_depth_chain", P+"C13_depth_le_nesting", P+"C13_depth_flat", P+"C13_depth_real_tree"],
+    text="PARTIAL. Theorem C13_partial (all finite lists with start<=end, any length/nesting/order/digests): diff terminates, trips no assertion, returns sorted disjoint well-formed ranges with bounds from the input. Not provable in a functional model: stack boundedness; its model-level shadow IS proved: the depth-instrumented walk refines the walk, depth <= |peer| always and, sharper, depth <= the longest chain of nested ranges occurring in the peer list (so long FLAT lists never nest more than one frame pair, whatever their length), a nested chain of n ranges reaches depth n, and against the serialisation of a REAL tree the depth is <= root level + 1 (so library-produced trees are always safe and no fixed stack suffices for untrusted input: this clause is false of the algorithm as written = known finding F2). The model depth is tied to the REAL recursion depth observed through the crate's own tracing spans (ldepth stream, feature tracing). The stack part itself is decided by replaying lists on a 2 MiB thread in debug and release: nested chains of depth <= 4096 and long flat lists (one root with n consistent / inconsistent children, n top-level ranges, n duplicates, empty local; n up to 100000) must pass; the overflow on nested chains at depth ~12000 is known finding F2.",
     assumptions=[A_TOTAL, A_MODEL, "machine stack not modelled (known finding F2)"]),
  "C14": dict(streams=S("tcfg","tmid","trand","twide","tdeep","tkeylen","tbig","tsmall"), level="proof",
     theorems=[P+"C14_level", P+"C14_level_bound", P+"C14_level_machine", P+"C14_level_machine_overflow", P+"C14_root", P+"C14_pages"],
